@@ -10,9 +10,15 @@ sys.path.insert(0, 'tools')
 from vlib import core
 print(core.run_translator())
 core.ensure_makefile()
-rc, out, err = core.sh('timeout 3400 make -j16', cwd=core.COQ)
-print((out + err)[-1500:] if rc else 'coq: built')
-if rc: sys.exit(1)
+# full .vo build, about 90 s on 16 cores; every coqc runs under a per-file limit (core.COQC_LIMIT) so that a script that no longer
+# terminates is named within minutes
+rc, out, err = core.sh('timeout 1800 %s' % core.MAKE, cwd=core.COQ, timeout=1900)
+if rc:
+    log = '\n'.join(l for l in (out + err).splitlines() if 'loadpath' not in l and 'previously bound' not in l)   # drop the -Q remapping warnings
+    print('coq: build FAILED (rc=%d; "Error 124" = a file exceeded %d s)' % (rc, core.COQC_LIMIT))
+    print(log[-3000:])
+    sys.exit(1)
+print('coq: built')
 core.build_driver()
 print('driver: built')
 for v in ('release', 'debug', 'release-zb', 'debug-zb'):
